@@ -88,6 +88,8 @@ fn family(group: &str) -> String {
         "fuc"
     } else if group.contains("/sub") {
         "manifold-cover"
+    } else if group.starts_with('L') && group.contains("/self") {
+        "lens-space"
     } else if group.contains("/self") {
         "self"
     } else {
